@@ -78,13 +78,16 @@ inductive FromErr
   | oob                  -- model only: memcpy writes past the new allocation
   deriving DecidableEq, Repr
 
+/-- the format test of `fixedArrayFromBuffer`: null, or a byte-order prefix `>`, `!`, `=`, `^` -/
+def badPrefix (fmt : List Char) : Bool :=
+  match fmt with
+  | [] => true
+  | c :: _ => c == '>' || c == '!' || c == '=' || c == '^'
+
 /-- `fixedArrayFromBuffer<ArrayT>`: the new array's storage as bytes.
     `new ArrayT (view.shape[0], UNINITIALIZED)` then `memcpy (dst, view.buf, view.len)`. -/
 def fromBuffer (cfg : BufCfg) (t : ElemTy) (src : Src) : Except FromErr (List Nat) :=
-  let badPrefix := match src.format with
-    | [] => true
-    | c :: _ => c == '>' || c == '!' || c == '=' || c == '^'
-  if badPrefix then .error .unsupportedType else
+  if badPrefix src.format then .error .unsupportedType else
   let allocBytes := src.shape0 * t.sizeofT
   if cfg.fromBufferChecks ∧
       (src.format ≠ [t.format] ∨ src.itemsize ≠ t.atomicSize ∨ src.bytes.length ≠ allocBytes) then
